@@ -4,9 +4,21 @@ C14 – Equality, ordering and hashing of NLRI agree with one another.
 Property theorems only; lemmas in `Rc/Lemmas/NlriOrd.lean`, model in
 `Rc/Model/NlriOrd.lean`.  `famImpl f` is `==`/`cmp`/`Hash` of the plain NLRI
 type of family `f`, `famImplAp f` of its ADD-PATH type (26 variants),
-`anyEq`/`anyCmp`/`anyHashKey` those of the `Nlri` enum.  The hypothesis `wf`
-is the invariant of the values that exist (a `Prefix` is a valid prefix, the
-`afi` inside `IpvNFlowSpecNlri` is the family's, an EVPN route type is a u8).
+`anyEq`/`anyCmp`/`anyHashKey` those of the `Nlri` enum.
+
+The hypothesis `wf` is a *representation* invariant only: it says which model
+values stand for a value of the Rust type (a `Pfx` is a valid `inetnum::Prefix`:
+4/16 address octets, length within the family, host bits zero; an EVPN route
+type is a value of `EvpnRouteType`, the non-normalised `Unimplemented(1..=5)`
+included).  It excludes no value of the Rust types that the harness can build:
+label stacks of any length, an `afi` that is not the family's inside
+`IpvNFlowSpecNlri` (serde), route targets of any length are all covered, and the
+harness runs them (`vcmp` / `vtri`).  Not represented: `Afi::Unimplemented(1|2|25)`,
+which only the `arbitrary` feature constructs.
+
+What is NOT a theorem here: "values decoded from different buffer types holding
+the same bytes are ==".  The model has no buffer types (every `Octs` is a byte
+list); that clause is decided by the harness alone (reply field `xbuf`).
 -/
 import Rc.Lemmas.NlriOrd
 
@@ -37,7 +49,17 @@ theorem cmp_trans (f : Fam) (a b c : f.Val) (ha : (famImpl f).wf a = true) (hb :
 theorem cmp_connex (f : Fam) (a b : f.Val) (ha : (famImpl f).wf a = true) (hb : (famImpl f).wf b = true) :
     (famImpl f).cmp a b ≠ .gt ∨ (famImpl f).cmp b a ≠ .gt := (famLaws f).connex a b ha hb
 
-/-- `==` values feed the same data to the hasher -/
+/-- `==` is identity of the modelled values: no two different values of an NLRI type
+are `==` (the buffer type apart, see the header). -/
+theorem eq_iff_identical (f : Fam) (a b : f.Val) (ha : (famImpl f).wf a = true) (hb : (famImpl f).wf b = true) :
+    (famImpl f).eq a b = true ↔ a = b := (famLaws f).beq_iff a b ha hb
+
+/-- `==` values feed the same data to the hasher.  NOTE: because `==` is identity
+(`eq_iff_identical`) this holds of any function of the value, so the statement carries
+no information about `hashKey` itself; the content of the clause "== values hash
+identically" is `eq_iff_identical` plus the fact, established by the correspondence run
+and not by proof, that the real `Hash` impls feed the hasher a function of the fields
+`==` reads (`hashKey`), whatever the buffer type. -/
 theorem eq_hash (f : Fam) (a b : f.Val) (ha : (famImpl f).wf a = true) (hb : (famImpl f).wf b = true)
     (h : (famImpl f).eq a b = true) : (famImpl f).hashKey a = (famImpl f).hashKey b := by
   rw [((famLaws f).beq_iff a b ha hb).mp h]
@@ -72,6 +94,7 @@ theorem addpath_cmp_connex (f : Fam) (a b : Nat × f.Val) (ha : (famImplAp f).wf
     (hb : (famImplAp f).wf b = true) :
     (famImplAp f).cmp a b ≠ .gt ∨ (famImplAp f).cmp b a ≠ .gt := (famApLaws f).connex a b ha hb
 
+/-- see the note at `eq_hash`: a consequence of `==` being identity -/
 theorem addpath_eq_hash (f : Fam) (a b : Nat × f.Val) (ha : (famImplAp f).wf a = true)
     (hb : (famImplAp f).wf b = true) (h : (famImplAp f).eq a b = true) :
     (famImplAp f).hashKey a = (famImplAp f).hashKey b := by
@@ -96,6 +119,7 @@ theorem enum_cmp_trans (a b c : AnyNlri) (ha : anyWf a = true) (hb : anyWf b = t
 theorem enum_cmp_connex (a b : AnyNlri) (ha : anyWf a = true) (hb : anyWf b = true) :
     anyCmp a b ≠ .gt ∨ anyCmp b a ≠ .gt := anyLaws.connex a b ha hb
 
+/-- see the note at `eq_hash`: a consequence of `==` being identity -/
 theorem enum_eq_hash (a b : AnyNlri) (ha : anyWf a = true) (hb : anyWf b = true)
     (h : anyEq a b = true) : anyHashKey a = anyHashKey b := by
   rw [(anyLaws.beq_iff a b ha hb).mp h]
@@ -110,6 +134,16 @@ theorem enum_cross_variant (a b : AnyNlri) (h : a.typeIdx ≠ b.typeIdx) :
 example : (famImpl .v4u).wf ⟨false, 23, [10, 1, 2, 0]⟩ = true := by decide
 example : (famImplAp .v6mpls).wf (7, ⟨⟨true, 8, [0x20, 0, 0, 0, 0, 0, 0, 0, 0, 0, 0, 0, 0, 0, 0, 0]⟩, [0, 0, 17]⟩) = true := by decide
 example : (famImpl .v4fs).wf ⟨1, [3, 0x81, 6]⟩ = true := by decide
+/-- the point the former `afi` hypothesis excluded (repair F31): an `Ipv4FlowSpecNlri`
+holding `afi = Ipv6` is `!=` the one holding `afi = Ipv4` and now also orders after it -/
+example : (famImpl .v4fs).wf ⟨2, [3, 0x81, 6]⟩ = true ∧
+    (famImpl .v4fs).eq ⟨1, [3, 0x81, 6]⟩ ⟨2, [3, 0x81, 6]⟩ = false ∧
+    (famImpl .v4fs).cmp ⟨1, [3, 0x81, 6]⟩ ⟨2, [3, 0x81, 6]⟩ = .lt := by decide
+/-- label octets that are not a whole number of labels, and the non-normalised route type
+`Unimplemented(2)` (258) next to `MacIpAdvertisement` (2): inside the theorems -/
+example : (famImpl .v4mpls).wf ⟨⟨false, 8, [10, 0, 0, 0]⟩, [1, 2]⟩ = true := by decide
+example : (famImpl .evpn).wf ⟨258, [1]⟩ = true ∧ (famImpl .evpn).eq ⟨258, [1]⟩ ⟨2, [1]⟩ = false ∧
+    (famImpl .evpn).cmp ⟨2, [1]⟩ ⟨258, [1]⟩ = .lt := by decide
 example : anyWf ⟨.evpn, some 3, ⟨2, [1, 2, 3]⟩⟩ = true := by decide
 
 end Rc.Thm.C14
